@@ -102,6 +102,18 @@ func Err(code int, data any) *Error {
 	}
 }
 
+// echoableID returns the id of an invalid request if a response may carry it (a String or a Number, as the
+// specification requires of a response id) and nil (Null) otherwise: the request is rejected before its id
+// is validated, so it may be an array, an object or a boolean.
+func echoableID(id any) any {
+	switch id.(type) {
+	case string, json.Number:
+		return id
+	default:
+		return nil
+	}
+}
+
 func (r *Request) isSane() error {
 	if r.Version != "2.0" {
 		return errors.New("unsupported RPC request version")
@@ -367,7 +379,7 @@ func (s *Server) HandleReader(ctx context.Context, reader io.Reader) ([]byte, ht
 		} else if resObject, httpHeader, handleErr := s.handleRequest(ctx, req); handleErr != nil {
 			resp = new(errResponse(InvalidRequest, handleErr.Error()))
 			if !errors.Is(handleErr, ErrInvalidID) {
-				resp.ID = req.ID
+				resp.ID = echoableID(req.ID)
 			}
 			header = httpHeader
 		} else {
@@ -440,7 +452,7 @@ func (s *Server) handleBatchRequest(ctx context.Context, batchReq []json.RawMess
 			if err != nil {
 				resp = new(errResponse(InvalidRequest, err.Error()))
 				if !errors.Is(err, ErrInvalidID) {
-					resp.ID = req.ID
+					resp.ID = echoableID(req.ID)
 				}
 			}
 			// for notification request response is nil and header is irrelevant for now
